@@ -161,10 +161,10 @@ func c10checkHeld(cl *Client, l *c10ledger, hist string) {
 
 var c10ops = []string{"send-m", "raw-p", "send-mp", "send-r", "in-r", "a=0", "a=1", "a=w-1", "a=w", "a=w+1"}
 
-func c10body(first []string, maxLen int) func() {
+func c10body(first []string, maxLen int, prelude bool) func() {
 	return func() {
 		ops := append([]string{}, first...)
-		s := newSess(sessOpts{sm: true, smResume: true})
+		s := newSess(sessOpts{sm: true, smResume: true, resumeAns: "failed"})
 		if s.cl == nil {
 			return
 		}
@@ -174,6 +174,25 @@ func c10body(first []string, maxLen int) func() {
 		}
 		vrt.WaitIdle()
 		sc := s.conn(0)
+		if prelude {
+			// an earlier stream-managed session with two unacknowledged stanzas, lost; its resumption is
+			// refused, so the session under test is a fresh one: nothing of the old one may leak into it
+			_ = s.cl.Send(stanza.Message{Attrs: stanza.Attrs{To: "peer@example.org", Id: "old1"}, Body: "old"})
+			_ = s.cl.Send(stanza.Message{Attrs: stanza.Attrs{To: "peer@example.org", Id: "old2"}, Body: "old"})
+			vrt.WaitIdle()
+			sc.close()
+			vrt.WaitIdle()
+			if err := s.cl.Connect(); err != nil {
+				vrt.Fail("C10|harness|reconnect", "%v", err)
+				return
+			}
+			vrt.WaitIdle()
+			sc = s.conn(1)
+			if sc == nil || len(s.recs) < 2 || !s.recs[1].EnableOK {
+				vrt.Fail("C10|harness|fresh-session", "the second connection did not enable stream management afresh")
+				return
+			}
+		}
 		l := &c10ledger{}
 		// the initial presence was the first unit of the established phase (handed back by the script)
 		l.absorb(append(sc.pending, sc.drainNew()...))
@@ -399,8 +418,11 @@ func TestVerifC10(t *testing.T) {
 	var scs []hx.Scenario
 	for _, a := range c10ops {
 		for _, b := range c10ops {
-			scs = append(scs, hx.Scenario{Name: "seq/first=" + a + "," + b, Opt: vrt.Options{Bound: 0}, Body: c10body([]string{a, b}, maxLen), Verdict: c10verdict})
+			scs = append(scs, hx.Scenario{Name: "seq/first=" + a + "," + b, Opt: vrt.Options{Bound: 0}, Body: c10body([]string{a, b}, maxLen, false), Verdict: c10verdict})
 		}
+	}
+	for _, a := range c10ops {
+		scs = append(scs, hx.Scenario{Name: "after-refused-resumption/first=" + a, Opt: vrt.Options{Bound: 0}, Body: c10body([]string{a}, maxLen-1, true), Verdict: c10verdict})
 	}
 	cb := 2
 	if hx.Thorough() {
